@@ -270,14 +270,15 @@ class Net:
 
         real_connect = _http.connect
 
-        def counting_connect(url, options, proxy, socket):
+        def counting_connect(url, options, proxy, socket, *more, **kmore):
+            # (further parameters a later version may pass between the library's own modules are handed through)
             net.call_index += 1
             net.phase = "P"
             if socket is not None and socket is net.user_socket:
                 net.timeline.append(f"A{net.call_index}")
                 socket.idx = net.call_index
             try:
-                return real_connect(url, options, proxy, socket)
+                return real_connect(url, options, proxy, socket, *more, **kmore)
             finally:
                 net.phase = "I"
 
